@@ -111,6 +111,9 @@ func runCacheHistory(c *fw.Ctx, mutable bool, nsteps, maxDepth int) {
 				continue
 			}
 			w.blockCommit(c, b)
+			if r.Intn(15) == 0 {
+				w.recommit(c, b)
+			}
 		default: // lookups
 			switch k := r.Intn(10); {
 			case k < 5:
@@ -243,7 +246,7 @@ func init() {
 		ID:    "C06",
 		Level: "exploration",
 		Rule: "each case grows a random block tree through the real cache objects: new blocks (extending a tip, forking from an old block, or on a parent the cache never saw = gap), transactions per block, set/remove in transactions and block caches, transaction commits, " +
-			"abandoned transactions and blocks, block commits (parent first; a quarter of the trees also out of order), and lookups through StateCache.Get, QueryBlockCache, BlockCache.Get and TransactionCache.Get at tips, old blocks, siblings and unknown hashes, " +
+			"abandoned transactions and blocks, block caches that get their hash only right before the commit (SetBlockHash), block commits (parent first; a quarter of the trees also out of order), a second commit of an already committed block hash with different writes (must be ignored), and lookups through StateCache.Get, QueryBlockCache, BlockCache.Get and TransactionCache.Get at tips, old blocks, siblings and unknown hashes, " +
 			"each compared with the harness' own block-tree model (unique token per write: a wrong hit names the block it leaked from); a final sweep reads every (key, block). Cases 0-3 are hot-key chains (one key written in most of 260..2600 blocks with an old block kept recent). " +
 			"non-trivial = tree with at least one fork and three committed blocks; distinct by trace hash",
 		Cases: func(tier string) int {
@@ -254,7 +257,7 @@ func init() {
 		},
 		Run: runC06,
 		Floors: map[string]int64{"trees": 80000, "lookups": 5000000, "hits": 100000, "misses": 100000, "forks": 10000, "gaps": 1000, "removals": 10000, "trees_with_out_of_order_commits": 1000,
-			"hot_key_chains": 4, "max:versions_of_one_key": 201},
+			"hot_key_chains": 4, "max:versions_of_one_key": 201, "duplicate_commits": 5000, "late_block_hashes": 20000},
 		Assumptions: []string{
 			"uncommitted blocks on a chain are skipped by the model (their writes are private), so the legal set is {miss, nearest committed write}",
 			"a BlockCache / TransactionCache object is not used for lookups after its own block has committed (the block is then queried through StateCache/QueryBlockCache)",
